@@ -461,7 +461,7 @@ def gen_stream(ctx, quick, info):
 def gen_pairs(ctx, quick, info, case, syn):
     """count = max x every length / size field of the first item, for every count-driven loop the table names (while
     loops, item fields alone, in the thorough tier): on fixtures that contain an instance (quick: the three smallest and
-    one more drawn from ctx.rng; thorough: all) and on a synthetic minimal instance (the enclosing tagged block / image
+    one more drawn from ctx.rng; thorough: the 24 smallest and eight more) and on a synthetic minimal instance (the enclosing tagged block / image
     resource transplanted into the small synthetic document, PSD and PSB; the skeleton loops: the synthetic documents)"""
     import extract_c06
     from concurrent.futures import ProcessPoolExecutor
@@ -490,7 +490,10 @@ def gen_pairs(ctx, quick, info, case, syn):
         st = stats.setdefault(k, {"fixtures_with_instance": len(hosts), "hosts": [], "synthetic": [], "inputs": 0})
         if not hosts:
             continue
-        chosen = hosts if not quick else hosts[:3] + ([rng.choice(hosts[3:])] if len(hosts) > 3 else [])
+        if quick:
+            chosen = hosts[:3] + ([rng.choice(hosts[3:])] if len(hosts) > 3 else [])
+        else:
+            chosen = hosts[:24] + rng.sample(hosts[24:], min(8, len(hosts[24:])))
         label = k.split(":")[1].split(".")[0]
         for size, nm, inst in chosen:
             b = fxbytes.get(nm)
@@ -975,7 +978,7 @@ def _run(ctx, pool, hello, has_cost, T):
                 "number of iterations observed; first item = the reads of the first iteration) and count = ff.. / 7f.. is "
                 "combined with each of the first %d numeric fields of the first item set to 0, 1, its own size, the size of the "
                 "item header up to it, max - on the fixtures that hold an instance (quick: the three smallest + one drawn; "
-                "thorough: all) and on a synthetic minimal instance (the enclosing block / resource transplanted into the "
+                "thorough: the 24 smallest + eight drawn) and on a synthetic minimal instance (the enclosing block / resource transplanted into the "
                 "synthetic document, PSD and PSB). NESTING: for every recursive container (Lr16 / Lr32 in a record, the chain "
                 "started in the document-level blocks, descriptor in descriptor, list in list, layer groups) depth-d chains "
                 "with 0 / 1 / 8 / 64 junk bytes behind every level, d on a ladder up to the reader's recursion limit + 2, run "
@@ -1106,7 +1109,13 @@ def replay(ctx, data):
         print(f"input: {len(b)} bytes  ({inp.get('why')})   RLIMIT_AS={hello['rlimit_as']}  limit={TIMEOUT:.0f}s")
         print("status:", r["status"], "stage:", r.get("stage"), "signal:", r.get("signal"), "stack:", r.get("stack"))
         om = r.get("open") or {}
-        print("open:", om.get("open"), "t=%.3fs" % om.get("t_open", 0), "rss growth KiB:", om.get("grow_kb"))
+        print("open:", om.get("open"), "t=%.3fs" % om.get("t_open", 0), "cpu=%.3fs" % om.get("cpu_open", 0), "rss growth KiB:", om.get("grow_kb"))
+        if "/time-over-cost-bound/" in data.get("signature", ""):
+            lim = (data.get("observed") or {}).get("limit_s") or TIME_FLOOR
+            cpu = om.get("cpu_open", 0)
+            print(("VIOLATION-REPRODUCED" if cpu > lim else "not reproduced:"), data.get("signature"),
+                  "- CPU %.2f s of PSDImage.open against the %.2f s the cost bound allowed in the run that found it "
+                  "(%s model ticks)" % (cpu, lim, (data.get("observed") or {}).get("model_ticks")))
         if r.get("export"):
             print("export:", {k: (v.get("cls") or v["k"]) for k, v in r["export"]["ops"].items()}, "t=%.2fs" % r["export"].get("t", 0),
                   "rss growth KiB:", r["export"].get("grow_kb"))
